@@ -326,6 +326,29 @@ def exits_ok(ctx):
             continue
         helper, sig, d = decided
         hb = helpers[helper]
+        # the stop value is the result of exactly one handler call, and no other handler runs between that call
+        # and the decision (nothing may be written after the user's DISCONNECT)
+        t_d = run.term(d)
+        si_d = run.switch_info(d)
+        src_d = {"pl": si_d["place"]} if si_d["kind"] == "discr" else t_d["op"]
+        deep = run.atoms(src_d if "pl" not in src_d or "k" in src_d else src_d["pl"])
+        polled_all = sorted({a[1] for a in deep if a[0] == "call" and re.search(r"Context::(handle_packet|handle_message|ack|retransmit)::\{closure#0\}$", a[1])})
+        handler_calls = [(i, t) for i, t in run.calls(r"Context::(handle_packet|handle_message|ack|retransmit)$")]
+        feeding = [i for i, t in handler_calls if run.completion_of(i) and run.dominates(run.completion_of(i)["ready_bb"], d)]
+        between = []
+        loop_heads = {b for b in run.reach if any(run.dominates(b, p) for p in run.pred(b))}
+        feeding = [i for i in feeding if any(a[1].startswith(strip_generics(run.term(i)["callee"]["def"])) for a in deep if a[0] == "call")] or feeding
+        for i in feeding:
+            rb = run.completion_of(i)["ready_bb"]
+            outer = {h for h in loop_heads if run.dominates(h, rb)}     # enclosing loops of the deciding call
+            reach = run.reachable_from(rb, avoid=outer)
+            for j, t in handler_calls:
+                if j != i and j in reach and d in run.reachable_from(j, avoid=outer):
+                    between.append(run.site(j))
+        single = len(polled_all) == 1 and len(feeding) >= 1 and not between
+        out.append(Inst("EXITS-OK", "run:stop-from-single-handler-call:%s" % helper, single, run.site(d),
+                        "stop decision derives from %s; handler calls between the deciding call and the decision: %s" % ([short_ty(x.replace("::{closure#0}", "")) for x in polled_all], sorted(set(between)) or "none"),
+                        "the handler that reports the graceful end is the last thing run() executes"))
         stop_exits = []
         cont_exits = []
         for x in exits(ctx, hb):
